@@ -54,7 +54,7 @@ fn bounds_for(prop: &str, tier: &str, th: &Theory) -> Bounds {
     let mut b = Bounds {
         depth: if thorough { m("depth_thorough", 6) } else { m("depth_quick", 4) } as usize,
         prelude_elems: m("elem_cap", 2) as usize,
-        extra_new: if thorough { 1 } else { 0 },
+        extra_new: m("extra_new", 1) as usize,
         max_defines: if thorough { 2 } else { 1 },
         max_closes: if thorough { 3 } else { 2 },
         state_cap: envu("VERIF_STATE_CAP", if thorough { 1_500_000 } else { 150_000 }) as usize,
@@ -81,7 +81,7 @@ fn main() {
         let thorough = tier == "thorough";
         let entries: Vec<(&dynmodel::Entry, Theory)> = reg.iter().map(|e| (e, Theory::from_json(e.ast_json)))
             .filter(|(e, _)| only.as_ref().map_or(true, |o| o.split(',').any(|x| x == e.name))).collect();
-        let rs: Vec<(String, c16::C16Result)> = entries.par_iter().map(|(e, th)| (th.name.clone(), c16::run_theory(th, e, if thorough { 3 } else { 2 }, envu("VERIF_C16_CAP", if thorough { 400_000 } else { 20_000 }) as usize))).collect();
+        let rs: Vec<(String, c16::C16Result)> = entries.par_iter().map(|(e, th)| (th.name.clone(), c16::run_theory(th, e, if thorough { 3 } else { 2 }, envu("VERIF_C16_CAP", if thorough { 600_000 } else { 60_000 }) as usize))).collect();
         let mut violations = Vec::new(); let mut samples = Vec::new(); let mut per = Vec::new();
         let (mut dbs, mut fams, mut nt) = (0u64, 0u64, 0u64);
         let mut capped = false;
